@@ -41,12 +41,12 @@ pub struct Odo {
 
 impl Odo {
     pub fn new(shard: usize, nshards: usize) -> Odo {
-        Odo { prefix: Vec::new(), pos: 0, shard, nshards: nshards.max(1), skipping: false, nondet: false }
+        Odo { prefix: Vec::with_capacity(256), pos: 0, shard, nshards: nshards.max(1), skipping: false, nondet: false }
     }
     /// Advance to the next sequence; false when the space is exhausted.
     pub fn next(&mut self) -> bool {
         if self.skipping {
-            self.prefix.truncate(2);
+            self.prefix.truncate(3);
         } else {
             self.prefix.truncate(self.pos);
         }
@@ -79,8 +79,8 @@ impl Chooser for Odo {
             0
         };
         self.pos += 1;
-        if self.pos == 2 && self.nshards > 1 {
-            let idx = self.prefix[0].0 * self.prefix[1].1 + self.prefix[1].0;
+        if self.pos == 3 && self.nshards > 1 {
+            let idx = (self.prefix[0].0 * self.prefix[1].1 + self.prefix[1].0) * self.prefix[2].1 + self.prefix[2].0;
             if idx % self.nshards != self.shard {
                 self.skipping = true;
             }
